@@ -63,6 +63,10 @@ var wants = []want{
 	{"pkg/blobserver/handlers/enumerate.go", "forcond:Before", "handleEnumerateBlobs", "enum_wait_loop_runs"},
 	// client: does the callback given to doStat inside StatBlobs leave the reporting to the helper (it does not call fn itself)?
 	{"pkg/client/upload.go", "nofncall:doStat", "StatBlobs", "client_stat_reports_once"},
+	// stat helper: inside the loop over the blobs, is the cancellation looked at (select) before a gate slot is taken (Start)?
+	{"pkg/blobserver/stat.go", "selectbefore:Start", "StatBlobsParallelHelper", "stat_helper_checks_before_start"},
+	// diskpacked append: is the index row written (first Set) before the roll-over (first nextPack)?
+	{"pkg/blobserver/diskpacked/diskpacked.go", "callorder:Set<nextPack", "append", "dp_append_index_before_rollover"},
 	// blobpacked: does RemoveBlobs hand the loose store every blob it was given (and not only those without a meta row)?
 	{"pkg/blobserver/blobpacked/blobpacked.go", "removeall:small", "RemoveBlobs", "bp_remove_loose_of_all"},
 	// every handler type registered anywhere under pkg/ (first argument of blobserver.RegisterHandlerConstructor)
@@ -479,7 +483,27 @@ func main() {
 				return true
 			})
 			fmt.Fprintf(&b, "Definition %s : bool := %v.\n", w.coqName, found)
-		case "callorder:CommitBatch<delete", "callorder:WriteAt<punchHole", "callorder:WriteAt<CopyN":
+		case "selectbefore:Start":
+			fd, ok := fi.funcs[w.goName]
+			if !ok {
+				fail(fmt.Errorf("func not found"))
+			}
+			var selPos, startPos token.Pos
+			ast.Inspect(fd.Body, func(n ast.Node) bool {
+				switch x := n.(type) {
+				case *ast.SelectStmt:
+					if selPos == 0 {
+						selPos = x.Pos()
+					}
+				case *ast.CallExpr:
+					if se, ok := x.Fun.(*ast.SelectorExpr); ok && se.Sel.Name == "Start" && startPos == 0 {
+						startPos = x.Pos()
+					}
+				}
+				return true
+			})
+			fmt.Fprintf(&b, "Definition %s : bool := %v.\n", w.coqName, selPos != 0 && startPos != 0 && selPos < startPos)
+		case "callorder:CommitBatch<delete", "callorder:WriteAt<punchHole", "callorder:WriteAt<CopyN", "callorder:Set<nextPack":
 			fd, ok := fi.funcs[w.goName]
 			if !ok {
 				fail(fmt.Errorf("func not found"))
